@@ -114,6 +114,35 @@ def p2(repo, res, canon, us):
             elif ef.loc is not None and ef.loc.startswith(CU.IDLE_PREFIX + '[') and ef.kind == 'assign' \
                     and CU.pool_of(ef.loc) == 'idle' and ef.arg not in ('[]',):
                 per.setdefault('<assign>', []).append(('assign', 'idle', ef))
+        # a reservation list may be created only for an observation that has none yet
+        for e, efs in u.effects:
+            for ef in efs:
+                if ef.kind == 'assign' and CU.pool_of(ef.loc) == 'idle' and ef.loc.startswith(CU.IDLE_PREFIX + '['):
+                    key_ = ef.loc[len(CU.IDLE_PREFIX) + 1:-1]
+                    idx = u.path.events.index(e) if e in u.path.events else None
+                    facts_ok = False
+                    if idx is not None:
+                        from ..norm import Logic, Lit
+                        lg = Logic(canon)
+                        must = set()
+                        for x in u.path.events[:idx]:
+                            if x.kind == 'test':
+                                must |= lg.must(x.node, x.frame, x.pol)
+                        names = {key_, key_.split('#')[-1]}
+                        facts_ok = any((not l.pol) and l.atom.endswith(' in ' + CU.IDLE_PREFIX) and
+                                       l.atom.split(' in ')[0].split('#')[-1] in {n_.split('#')[-1] for n_ in names}
+                                       for l in must)
+                    k2 = (u.func.qual, ef.node.lineno, facts_ok)
+                    if k2 in reported:
+                        continue
+                    reported.add(k2)
+                    if facts_ok:
+                        res.ok('C02.P2', u.func, ef.node, 'idle[obs] is created only when obs has no reservation yet (line %d)' % ef.node.lineno)
+                    else:
+                        res.bad('C02.P2', u.func, ef.node, 'idle[obs] overwritten by `%s`' % short(ast.unparse(ef.node), 50),
+                                'the reservation list of an observation is replaced without having tested that it has '
+                                'none: machines sitting reserved-idle in the old list are in no pool any more',
+                                path=u.path.describe())
         for m, lst in per.items():
             kinds = [(k, p) for k, p, _ in lst]
             node = lst[0][2].node
